@@ -2371,3 +2371,37 @@ def r8_20(rep):
                   "%s asks `is_opaque` in `%s`: the fact no longer reaches an opaque type through its members or bases, while the derive "
                   "analysis relies on it for exactly those types" % (a.name, hits[0][0].path.split("::")[-1]), hits[0][0].loc(hits[0][1]) if hits else "bindgen/ir/analysis")
     rep.need(n >= 3, "the HasDestructor / HasVtable / HasFloat analyses")
+
+
+@RULES.rule("R8.21", "the hand-written Debug impl of a packed struct formats copies, never references to fields", floor=1)
+def r8_21(rep):
+    """`write!(f, "{:?}", self.x)` takes `&self.x`; for a packed struct that is an unaligned reference (E0793).  `derive(Debug)` avoids
+    it by copying each field first, and the hand-written impl has to do the same: in `gen_debug_impl`, when the struct is packed,
+    every argument handed to `write!` is wrapped in a block (`{ self.x }`)."""
+    import qq
+    prog = rep.prog
+    b = rep.need(prog.fn("codegen::impl_debug::gen_debug_impl"), "codegen::impl_debug::gen_debug_impl")
+    ext = [c for c in b.calls(lambda x: x["k"] == "MCall" and x["name"] == "extend") if (b.ty(c["recv"]) or "").endswith("Vec<proc_macro2::TokenStream>")
+           or "TokenStream" in (b.ty(c["recv"]) or "")]
+    rep.need(ext, "the calls that add the fields' tokens to the write! arguments")
+
+    def packed_cond(c):
+        """+1 under `packed`, -1 under `!packed`, 0 unconditional"""
+        for a, pol, g in qq.guard_atoms(b, c):
+            src = a
+            x = strip(g)
+            if x.get("k") == "Local" and b.local_init(x["id"]) is not None:
+                src += " " + b.canon(b.local_init(x["id"]), 10)
+                for y in b.walk(b.local_init(x["id"])):
+                    if y["k"] == "MCall":
+                        src += " " + (y.get("name") or "")
+            if "is_packed" in src:
+                return 1 if pol else -1
+        return 0
+    plain = [c for c in ext if packed_cond(c) <= 0 and not any(q.has("{", "#t", "}") or q.has("{", "#") for q in qq.quote_sites(b) if any(y is q.root for y in b.walk(c)))]
+    wrapped = [c for c in ext if packed_cond(c) == 1]
+    uncond_plain = [c for c in plain if packed_cond(c) == 0]
+    ok = bool(wrapped) and not uncond_plain
+    rep.check(ok, "packed-fields-copied", "under `packed` the arguments are wrapped in blocks; the plain form is used only for unpacked structs" if ok else
+              "field tokens are handed to `write!` as they are%s: for a packed struct `self.x` is borrowed (E0793)"
+              % ("" if wrapped else ", whether or not the struct is packed"), b.loc((uncond_plain or ext)[0]))
